@@ -99,13 +99,17 @@ func (p *Prog) ReachableFuncs(roots []*ssa.Function, g *callgraph.Graph) map[*ss
 // CallersOf lists (caller, call instruction) pairs of static calls to fn in
 // the module.
 func (p *Prog) StaticCallSites(fn *ssa.Function) []ssa.CallInstruction {
-	var out []ssa.CallInstruction
-	for _, f := range p.ModFuncs {
-		for _, in := range AllInstrs(f) {
-			if ci, ok := in.(ssa.CallInstruction); ok && IsCallToFn(ci.Common(), fn) {
-				out = append(out, ci)
+	if p.callSites == nil {
+		p.callSites = map[*ssa.Function][]ssa.CallInstruction{}
+		for _, f := range p.ModFuncs {
+			for _, in := range AllInstrs(f) {
+				if ci, ok := in.(ssa.CallInstruction); ok {
+					if c := StaticCallee(ci.Common()); c != nil {
+						p.callSites[c] = append(p.callSites[c], ci)
+					}
+				}
 			}
 		}
 	}
-	return out
+	return p.callSites[fn]
 }
